@@ -1,6 +1,7 @@
 ------------------------------- MODULE Trace_Sym -------------------------------
 (* Observations of the real rANS symbol coder (drv_c08) against Rans / SymbolCoding.
-   Level A (verdict):  Sym      EncodeSymbols ok => DecodeSymbols ok /\ same array /\ the sentinel that follows is
+   Level A (verdict):  Sym      an input inside the coder's reach (must: values < 2^31; forced raw: <= 2^17 distinct symbols) is encoded;
+                                EncodeSymbols ok => DecodeSymbols ok /\ same array /\ the sentinel that follows is
                                 found at the position where the encoder stopped (exact consumption);
                        SymCrash the encoder crashed / aborted instead of returning false;
                        RansRow  RAnsDecoder<pb> returns the sequence RAnsEncoder<pb> coded (small-precision domain of MC_RansSym).
@@ -9,7 +10,7 @@ EXTENDS TraceBase
 S(pb) == INSTANCE SymbolCoding WITH P <- 2^pb, L <- 4 * (2^pb), IOB <- 8
 BS == INSTANCE BitStream
 CheckA(r) ==
-  CASE r.e = "Sym" -> r.eok => (r.dok /\ r.oh = r.ih /\ r.ol = r.il /\ r.sentinel /\ r.pos = r.blockend)
+  CASE r.e = "Sym" -> (r.must => r.eok) /\ (r.eok => (r.dok /\ r.oh = r.ih /\ r.ol = r.il /\ r.sentinel /\ r.pos = r.blockend))
     [] r.e = "SymCrash" -> FALSE
     [] r.e = "RansRow" -> r.dok /\ r.dec = r.syms
     [] r.e = "Create" -> r.ok => r.dok            \* a table the encoder wrote is a table the decoder accepts
